@@ -5,6 +5,7 @@ import (
 	"encoding/binary"
 	"fmt"
 	"runtime"
+	"strings"
 	"sync"
 	"sync/atomic"
 	"time"
@@ -50,7 +51,10 @@ type ConcCfg struct {
 	SyncFault int      `json:"sync_fault"` // > 0: the k-th journal sync fails (group result propagation)
 }
 
-var yieldPoints = []string{"r.seq", "r.mems", "w.applied", "v.install", "m.drop", "m.rotate", "t.installed", "w.group", "c.table", "c.flush"}
+var yieldPoints = []string{"r.seq", "r.mems", "w.applied", "v.install", "m.drop", "m.rotate", "t.installed", "w.group", "c.table", "c.flush",
+	// inside the readers' critical sections: between the read of db.seq and the registration (snapsMu), with the
+	// buffers pinned (memMu.RLock), with the version pinned (vmu)
+	"s.acquire", "r.getmems", "r.version"}
 
 func encN(n uint64, pad int) []byte {
 	b := make([]byte, 8+pad)
@@ -84,6 +88,9 @@ type concRun struct {
 	evMu    sync.Mutex
 	results sync.Map // writer call id → error class (for C10)
 	stats   map[string]*int64
+	// reader side of the trace (concread.go)
+	traceReads bool
+	rt         readTrace
 }
 
 func (cr *concRun) fail(sig, msg string) {
@@ -158,13 +165,41 @@ func runConc(cfg ConcCfg, record bool) *concRun {
 	if record {
 		leveldb.VerifSink = func(point string, args []interface{}) {
 			switch point {
-			case "w.group", "w.applied", "w.publish", "m.rotate", "c.flush", "v.install", "m.drop", "c.table", "t.open", "t.installed", "t.publish", "t.done":
+			case "w.group", "w.applied", "w.publish", "m.rotate", "c.flush", "v.install", "m.drop", "c.table", "t.open", "t.installed", "t.publish", "t.done", "t.discard":
 				if atomic.LoadInt32(&cr.opened) == 0 {
 					return // recovery and the initial buffer belong to Open
 				}
 				cr.evMu.Lock()
 				cr.events = append(cr.events, Event{point, args})
 				cr.evMu.Unlock()
+			case "w.batches":
+				// the contents of the group, decoded now (the batches are recycled): user keys and value ids
+				if atomic.LoadInt32(&cr.opened) == 0 || len(args) < 2 {
+					return
+				}
+				bs, _ := args[1].([]*leveldb.Batch)
+				toks := batchTokens(bs)
+				cr.evMu.Lock()
+				cr.events = append(cr.events, Event{point, []interface{}{args[0], toks}})
+				cr.evMu.Unlock()
+			case "t.put":
+				if atomic.LoadInt32(&cr.opened) == 0 || len(args) < 4 {
+					return
+				}
+				kt, _ := args[1].(uint)
+				key, _ := args[2].([]byte)
+				val, _ := args[3].([]byte)
+				tok := "d" + hexField(key)
+				if kt == 1 {
+					tok = "p" + hexField(key) + ":" + valID(val)
+				}
+				cr.evMu.Lock()
+				cr.events = append(cr.events, Event{point, []interface{}{args[0], tok}})
+				cr.evMu.Unlock()
+			default:
+				if readerPoint(point) && atomic.LoadInt32(&cr.opened) != 0 {
+					cr.sinkReader(point, args)
+				}
 			}
 		}
 	}
@@ -177,6 +212,7 @@ func runConc(cfg ConcCfg, record bool) *concRun {
 		return cr
 	}
 	cr.db = db
+	cr.traceReads = record
 	atomic.StoreInt32(&cr.opened, 1)
 	var wg sync.WaitGroup
 	closed := int32(0)
@@ -233,7 +269,7 @@ func runConc(cfg ConcCfg, record bool) *concRun {
 				if err == nil {
 					atomic.StoreUint64(&cr.acked[w], n)
 					// read-your-write
-					if g, gerr := db.Get(keyA(w), nil); gerr == nil {
+					if g, gerr := cr.tGet(keyA(w)); gerr == nil {
 						if decN(g) != n {
 							cr.fail("get:own-write-not-visible", fmt.Sprintf("writer %d wrote %d (acknowledged) and then read %d", w, n, decN(g)))
 						}
@@ -278,16 +314,20 @@ func runConc(cfg ConcCfg, record bool) *concRun {
 		go func(q int, rr *rng.R) {
 			defer wg.Done()
 			last := make([][2]uint64, cfg.Writers)
+			mine := 0
 			for atomic.LoadInt32(&cr.stop) == 0 {
 				select {
 				case <-writersDone:
 					return
 				default:
 				}
+				if cr.traceReads && !cr.pace(rr, &mine, tracedReadsPerReader) {
+					return
+				}
 				w := rr.Intn(cfg.Writers)
 				before := atomic.LoadUint64(&cr.acked[w])
-				va, ea := db.Get(keyA(w), nil)
-				vb, eb := db.Get(keyB(w), nil)
+				va, ea := cr.tGet(keyA(w))
+				vb, eb := cr.tGet(keyB(w))
 				if ea == leveldb.ErrClosed || eb == leveldb.ErrClosed {
 					return
 				}
@@ -305,6 +345,18 @@ func runConc(cfg ConcCfg, record bool) *concRun {
 				}
 				last[w] = [2]uint64{a, b}
 				atomic.AddInt64(cr.stat("gets"), 2)
+				if cr.traceReads && rr.Chance(1, 4) {
+					// a private key that may or may not exist yet, or the large value of the transaction path
+					k := keyP(w, rr.Intn(10))
+					if rr.Chance(1, 5) {
+						k = keyP(w, 99)
+					}
+					if rr.Bool() {
+						cr.tHas(k)
+					} else {
+						cr.tGet(k)
+					}
+				}
 			}
 		}(q, r.Fork())
 	}
@@ -314,18 +366,22 @@ func runConc(cfg ConcCfg, record bool) *concRun {
 		go func(q int, rr *rng.R) {
 			defer wg.Done()
 			lastSeen := make([]uint64, cfg.Writers)
+			mine := 0
 			for atomic.LoadInt32(&cr.stop) == 0 {
 				select {
 				case <-writersDone:
 					return
 				default:
 				}
+				if cr.traceReads && !cr.pace(rr, &mine, tracedReadsPerSnapper) {
+					return
+				}
 				befores := make([]uint64, cfg.Writers)
 				for w := range befores {
 					befores[w] = atomic.LoadUint64(&cr.acked[w])
 				}
 				if rr.Bool() {
-					sn, err := db.GetSnapshot()
+					sn, sid, err := cr.tSnap()
 					if err != nil {
 						return
 					}
@@ -333,10 +389,10 @@ func runConc(cfg ConcCfg, record bool) *concRun {
 						time.Sleep(time.Duration(rr.Intn(300)) * time.Microsecond) // let writers, flushes, compactions pass
 					}
 					for w := 0; w < cfg.Writers; w++ {
-						va, ea := sn.Get(keyA(w), nil)
-						vb, eb := sn.Get(keyB(w), nil)
+						va, ea := cr.tSnapGet(sn, sid, keyA(w))
+						vb, eb := cr.tSnapGet(sn, sid, keyB(w))
 						if ea == leveldb.ErrClosed || eb == leveldb.ErrClosed {
-							sn.Release()
+							cr.tSnapRelease(sn, sid)
 							return
 						}
 						chk("snapshot", w, befores[w], decN(va), decN(vb), ea == nil, eb == nil, true)
@@ -347,7 +403,7 @@ func runConc(cfg ConcCfg, record bool) *concRun {
 					}
 					var g0 []byte
 					for i := 0; i < sharedKeys; i++ {
-						gv, ge := sn.Get(keyG(i), nil)
+						gv, ge := cr.tSnapGet(sn, sid, keyG(i))
 						if ge == leveldb.ErrClosed {
 							break
 						}
@@ -360,14 +416,15 @@ func runConc(cfg ConcCfg, record bool) *concRun {
 							cr.fail("snapshot:shared-group-torn", fmt.Sprintf("snapshot: shared group keys G00 and G%02d carry tokens %x and %x although every batch writes all of them together", i, g0, gv))
 						}
 					}
-					sn.Release()
+					cr.tSnapRelease(sn, sid)
 					atomic.AddInt64(cr.stat("snapshots"), 1)
 				} else {
-					it := db.NewIterator(nil, nil)
+					it, itOp := cr.tIter()
 					if rr.Chance(1, 2) {
 						time.Sleep(time.Duration(rr.Intn(300)) * time.Microsecond)
 					}
 					as, bs := map[int]uint64{}, map[int]uint64{}
+					avals, bvals := map[int][]byte{}, map[int][]byte{}
 					var gtoks []string
 					var prev []byte
 					for it.Next() {
@@ -381,8 +438,10 @@ func runConc(cfg ConcCfg, record bool) *concRun {
 							gtoks = append(gtoks, string(it.Value()))
 						} else if n, _ := fmt.Sscanf(string(k), "A%03d", &w); n == 1 {
 							as[w] = decN(it.Value())
+							avals[w] = cp(it.Value())
 						} else if n, _ := fmt.Sscanf(string(k), "zB%03d", &w); n == 1 {
 							bs[w] = decN(it.Value())
+							bvals[w] = cp(it.Value())
 						}
 					}
 					ierr := it.Error()
@@ -393,6 +452,17 @@ func runConc(cfg ConcCfg, record bool) *concRun {
 					if ierr != nil {
 						cr.fail("iterator:error", ierr.Error())
 						return
+					}
+					if itOp != nil {
+						// what the walk showed for the pair keys, present or absent, against the model's lookups at the
+						// iterator's triple
+						var res []readRes
+						for w := 0; w < cfg.Writers; w++ {
+							va, ha := avals[w]
+							vb, hb := bvals[w]
+							res = append(res, readRes{keyA(w), ha, va}, readRes{keyB(w), hb, vb})
+						}
+						cr.tIterDone(itOp, res)
 					}
 					for w := 0; w < cfg.Writers; w++ {
 						a, ha := as[w]
@@ -460,8 +530,8 @@ func runConc(cfg ConcCfg, record bool) *concRun {
 	if atomic.LoadInt32(&closed) == 0 {
 		// final state: every acknowledged write visible
 		for w := 0; w < cfg.Writers; w++ {
-			a, ea := db.Get(keyA(w), nil)
-			b, eb := db.Get(keyB(w), nil)
+			a, ea := cr.tGet(keyA(w))
+			b, eb := cr.tGet(keyB(w))
 			if ack := atomic.LoadUint64(&cr.acked[w]); ack > 0 && cfg.SyncFault == 0 {
 				if ea != nil || eb != nil || decN(a) != ack || decN(b) != ack {
 					cr.fail("final:acknowledged-write-lost", fmt.Sprintf("writer %d: last acknowledged %d, final A=%d(%v) B=%d(%v)", w, ack, decN(a), ea, decN(b), eb))
@@ -470,7 +540,7 @@ func runConc(cfg ConcCfg, record bool) *concRun {
 		}
 		var g0 []byte
 		for i := 0; i < sharedKeys; i++ {
-			gv, ge := db.Get(keyG(i), nil)
+			gv, ge := cr.tGet(keyG(i))
 			if ge != nil {
 				gv = nil
 			}
@@ -547,7 +617,7 @@ func randConcCfg(r *rng.R) ConcCfg {
 
 func init() {
 	Registry["C05"] = func(c *Ctx) {
-		c.Res.Rule = "concurrent scenarios: 1–6 writers (each owns a key pair set by ONE batch per round, plus private keys, large batches through the transaction path, explicit transactions), 1–4 point readers, 1–3 snapshot/iterator users, optional CompactRange caller, tiny buffers, GOMAXPROCS 1/2/4/16, random subsets of the verif yield points sleeping; oracles: consistent cut in snapshots/iterators, no older state after a newer one, monotone reads, acknowledged ⇒ visible, nothing from the future; non-trivial = ≥ 2 goroutine kinds ran and ≥ 100 reads happened; distinct by configuration"
+		c.Res.Rule = "concurrent scenarios: 1–6 writers (each owns a key pair set by ONE batch per round, plus private keys, large batches through the transaction path, explicit transactions), 1–4 point readers, 1–3 snapshot/iterator users, optional CompactRange caller, tiny buffers, GOMAXPROCS 1/2/4/16, random subsets of the verif yield points sleeping; oracles: consistent cut in snapshots/iterators, no older state after a newer one, monotone reads, acknowledged ⇒ visible, nothing from the future; in every second run ALL reads are recorded (paced readers) and replayed with the writer/flush/compaction/transaction events through the interleaving model: snapshot acquisition, getMems, version(), release as the reader steps of the model, the snapshot list against db.minSeq(), and every answer (Get, Has, Snapshot.Get, iterator pairs) against the model's lookup at the reader's triple; non-trivial = ≥ 2 goroutine kinds ran and ≥ 100 reads happened; distinct by configuration"
 		n := c.Scale(40, 600)
 		for i := 0; i < n && c.TimeLeft() && !c.Hung; i++ {
 			cfg := randConcCfg(c.R.Fork())
@@ -582,12 +652,31 @@ func init() {
 	}
 }
 
+// tracedReadsPerReader / tracedReadsPerSnapper bound the read operations of one reader goroutine in a TRACED run: there
+// every read is recorded (the snapshot list of the model is driven by all acquisitions and releases), so the
+// readers are paced and stop after their share; the untraced runs read at full speed.
+const (
+	tracedReadsPerReader  = 300
+	tracedReadsPerSnapper = 30
+)
+
+func (cr *concRun) pace(rr *rng.R, mine *int, limit int) bool {
+	if *mine >= limit {
+		return false
+	}
+	*mine++
+	time.Sleep(time.Duration(20+rr.Intn(500)) * time.Microsecond)
+	return true
+}
+
 // concLines renders the recorded synchronisation events in the grammar of lean/GoLevel/Driver/Conc.lean.
 func concLines(c *Ctx, evs []Event) {
-	c.Lean("conc reset 0", "ok")
+	r := &renderer{ops: map[int]*opState{}}
+	r.emit("conc reset 0")
 	flushTable := int64(-1)
 	var gseq uint64
 	var gn int
+	var gtoks, trToks []string
 	for _, e := range evs {
 		arg := func(i int) interface{} {
 			if i < len(e.Args) {
@@ -595,18 +684,32 @@ func concLines(c *Ctx, evs []Event) {
 			}
 			return nil
 		}
+		if r.reader(e) {
+			continue
+		}
 		switch e.Point {
 		case "w.group":
 			// the entries go into the buffer only after the journal write succeeded (`w.applied`)
 			gseq, _ = arg(0).(uint64)
 			gn, _ = arg(1).(int)
+			gtoks = nil
+		case "w.batches":
+			gtoks, _ = arg(1).([]string)
 		case "w.applied":
-			c.Lean(fmt.Sprintf("conc insert %d %d", gseq, gn), "ok")
+			line := fmt.Sprintf("conc insert %d %d", gseq, gn)
+			if len(gtoks) > 0 {
+				line += " " + strings.Join(gtoks, " ")
+			}
+			if gseq > r.pub+1 {
+				r.setPub(gseq - 1) // numbers consumed without entries: the model skips them here
+			}
+			r.emit(line)
 		case "w.publish":
 			seq, _ := arg(0).(uint64)
-			c.Lean(fmt.Sprintf("conc publish %d", seq), "ok")
+			r.setPub(seq)
+			r.emit(fmt.Sprintf("conc publish %d", seq))
 		case "m.rotate":
-			c.Lean("conc rotate", "ok")
+			r.emit("conc rotate")
 		case "c.flush":
 			if rec, _ := arg(1).(*leveldb.VerifRecord); rec != nil && len(rec.Added) == 1 {
 				flushTable = rec.Added[0].Num
@@ -615,33 +718,56 @@ func concLines(c *Ctx, evs []Event) {
 			if rec, _ := arg(1).(*leveldb.VerifRecord); rec != nil && flushTable >= 0 {
 				for _, t := range rec.Added {
 					if t.Num == flushTable {
-						c.Lean("conc flushinstall", "ok")
+						r.emit("conc flushinstall")
 						flushTable = -1
 						break
 					}
 				}
 			}
 		case "m.drop":
-			c.Lean("conc drop", "ok")
+			r.emit("conc drop")
 		case "c.table":
 			minSeq, _ := arg(1).(uint64)
-			c.Lean(fmt.Sprintf("conc compact %d", minSeq), "ok")
+			r.emit(fmt.Sprintf("conc compact %d", minSeq))
 		case "t.open":
 			base, _ := arg(0).(uint64)
-			c.Lean(fmt.Sprintf("conc tropen %d", base), "ok")
+			trToks = nil
+			if base > r.pub {
+				r.setPub(base)
+			}
+			r.emit(fmt.Sprintf("conc tropen %d", base))
+		case "t.put":
+			tok, _ := arg(1).(string)
+			trToks = append(trToks, tok)
 		case "t.installed":
 			seq, _ := arg(0).(uint64)
-			c.Lean(fmt.Sprintf("conc trinstall %d", seq), "ok")
+			line := fmt.Sprintf("conc trinstall %d", seq)
+			if len(trToks) > 0 {
+				line += " " + strings.Join(trToks, " ")
+			}
+			r.emit(line)
 		case "t.publish":
 			seq, _ := arg(0).(uint64)
-			c.Lean(fmt.Sprintf("conc trpublish %d", seq), "ok")
+			r.setPub(seq)
+			r.emit(fmt.Sprintf("conc trpublish %d", seq))
+		case "t.discard":
+			// Discard moves db.seq over the numbers the transaction used: logged before it does
+			seq, _ := arg(0).(uint64)
+			r.setPub(seq)
+			r.emit(fmt.Sprintf("conc trdone %d", seq))
 		case "t.done":
-			// the sequence number the transaction reached: a Discard consumes its range without an event of its own
+			// the sequence number the transaction reached (after a commit, or after the t.discard above, the model's
+			// transaction is already gone: a no-op)
 			if seq, ok := arg(0).(uint64); ok {
-				c.Lean(fmt.Sprintf("conc trdone %d", seq), "ok")
+				r.emit(fmt.Sprintf("conc trdone %d", seq))
 			} else {
-				c.Lean("conc trdone", "ok")
+				r.emit("conc trdone")
 			}
 		}
 	}
+	for _, l := range r.flatten() {
+		c.Lean(l, "ok")
+	}
+	c.Res.CountN("trace", "reader-acquisitions-moved-before-a-publication", r.moved)
+	c.Res.CountN("trace", "reader-acquisitions-stale", r.stale)
 }
